@@ -16,29 +16,29 @@ import (
 
 // origBody is the body of the response being replaced; reading it after Close
 // fails, as net/http's bodies do.
-type origBody struct {
+type zzorigBody struct {
 	r      *bytes.Reader
 	closed bool
 }
 
-func (b *origBody) Read(p []byte) (int, error) {
+func (b *zzorigBody) Read(p []byte) (int, error) {
 	if b.closed {
 		return 0, errors.New("http: read on closed response body")
 	}
 	return b.r.Read(p)
 }
-func (b *origBody) Close() error { b.closed = true; return nil }
+func (b *zzorigBody) Close() error { b.closed = true; return nil }
 
-type rspec struct {
+type zzrspec struct {
 	valid       bool // syntactically a byte-range-spec
 	suffix      bool
 	first, last int  // last == -1: open ended
 }
 
-func isDigit(c byte) bool { return c >= '0' && c <= '9' }
+func zzisDigit(c byte) bool { return c >= '0' && c <= '9' }
 
 // parseNum parses an unsigned decimal with optional surrounding spaces.
-func parseNum(s string) (int, bool) {
+func zzparseNum(s string) (int, bool) {
 	for len(s) > 0 && s[0] == ' ' {
 		s = s[1:]
 	}
@@ -50,7 +50,7 @@ func parseNum(s string) (int, bool) {
 	}
 	n := 0
 	for i := 0; i < len(s); i++ {
-		if !isDigit(s[i]) {
+		if !zzisDigit(s[i]) {
 			return 0, false
 		}
 		n = n*10 + int(s[i]-'0')
@@ -60,8 +60,8 @@ func parseNum(s string) (int, bool) {
 
 // refParse is the reference reading of a Range header value after "bytes=":
 // a comma separated list of first-last | first- | -suffix (RFC 7233 2.1).
-func refParse(set string) []rspec {
-	var out []rspec
+func zzrefParse(set string) []zzrspec {
+	var out []zzrspec
 	start := 0
 	for i := 0; i <= len(set); i++ {
 		if i < len(set) && set[i] != ',' {
@@ -77,7 +77,7 @@ func refParse(set string) []rspec {
 			}
 		}
 		if dash < 0 {
-			out = append(out, rspec{})
+			out = append(out, zzrspec{})
 			continue
 		}
 		l, r := part[:dash], part[dash+1:]
@@ -95,17 +95,17 @@ func refParse(set string) []rspec {
 		}
 		switch {
 		case lblank && rblank:
-			out = append(out, rspec{})
+			out = append(out, zzrspec{})
 		case lblank:
-			n, ok := parseNum(r)
-			out = append(out, rspec{valid: ok, suffix: true, last: n})
+			n, ok := zzparseNum(r)
+			out = append(out, zzrspec{valid: ok, suffix: true, last: n})
 		case rblank:
-			n, ok := parseNum(l)
-			out = append(out, rspec{valid: ok, first: n, last: -1})
+			n, ok := zzparseNum(l)
+			out = append(out, zzrspec{valid: ok, first: n, last: -1})
 		default:
-			a, ok1 := parseNum(l)
-			b, ok2 := parseNum(r)
-			out = append(out, rspec{valid: ok1 && ok2 && a <= b, first: a, last: b})
+			a, ok1 := zzparseNum(l)
+			b, ok2 := zzparseNum(r)
+			out = append(out, zzrspec{valid: ok1 && ok2 && a <= b, first: a, last: b})
 		}
 	}
 	return out
@@ -113,7 +113,7 @@ func refParse(set string) []rspec {
 
 // resolve turns a valid spec into positions within content of length n;
 // ok=false means the range is unsatisfiable.
-func (r rspec) resolve(n int) (int, int, bool) {
+func (r zzrspec) resolve(n int) (int, int, bool) {
 	if r.suffix {
 		if r.last == 0 || n == 0 {
 			return 0, 0, false
@@ -134,21 +134,21 @@ func (r rspec) resolve(n int) (int, int, bool) {
 	return r.first, last, true
 }
 
-func contentRange(s, e, n int) string {
+func zzcontentRange(s, e, n int) string {
 	return "bytes " + strconv.Itoa(s) + "-" + strconv.Itoa(e) + "/" + strconv.Itoa(n)
 }
 
-const boundary = "b0undary"
+const zzboundary = "b0undary"
 
-func runBody(content []byte, rangeHeader string, hasRange bool) {
+func zzrunBody(content []byte, rangeHeader string, hasRange bool) {
 	n := len(content)
 	m := NewModifier(content, "text/plain")
-	m.SetBoundary(boundary)
+	m.SetBoundary(zzboundary)
 	req := &http.Request{Method: "GET", URL: &url.URL{Scheme: "http", Host: "h", Path: "/"}, Header: http.Header{}}
 	if hasRange {
 		req.Header["Range"] = []string{rangeHeader}
 	}
-	ob := &origBody{r: bytes.NewReader([]byte("original"))}
+	ob := &zzorigBody{r: bytes.NewReader([]byte("original"))}
 	res := &http.Response{StatusCode: 200, Header: http.Header{}, Body: ob, ContentLength: 8, Request: req}
 
 	err := m.ModifyResponse(res) // a Go panic in here is reported by the engine
@@ -168,7 +168,7 @@ func runBody(content []byte, rangeHeader string, hasRange bool) {
 		vf.Reach("full")
 		return
 	}
-	specs := refParse(rangeHeader[len("bytes="):])
+	specs := zzrefParse(rangeHeader[len("bytes="):])
 	allOK := true
 	type seg struct{ s, e int }
 	var segs []seg
@@ -195,7 +195,7 @@ func runBody(content []byte, rangeHeader string, hasRange bool) {
 	if len(segs) == 1 {
 		s, e := segs[0].s, segs[0].e
 		vf.Assert(bytes.Equal(got, content[s:e+1]), "single-range-bytes")
-		vf.Assert(res.Header.Get("Content-Range") == contentRange(s, e, n), "single-range-content-range")
+		vf.Assert(res.Header.Get("Content-Range") == zzcontentRange(s, e, n), "single-range-content-range")
 		vf.Reach("206-single")
 		return
 	}
@@ -204,14 +204,14 @@ func runBody(content []byte, rangeHeader string, hasRange bool) {
 		if i > 0 {
 			want.WriteString("\r\n")
 		}
-		want.WriteString("--" + boundary + "\r\n")
-		want.WriteString("Content-Range: " + contentRange(sg.s, sg.e, n) + "\r\n")
+		want.WriteString("--" + zzboundary + "\r\n")
+		want.WriteString("Content-Range: " + zzcontentRange(sg.s, sg.e, n) + "\r\n")
 		want.WriteString("Content-Type: text/plain\r\n\r\n")
 		want.Write(content[sg.s : sg.e+1])
 	}
-	want.WriteString("\r\n--" + boundary + "--\r\n")
+	want.WriteString("\r\n--" + zzboundary + "--\r\n")
 	vf.Assert(bytes.Equal(got, want.Bytes()), "multipart-body")
-	vf.Assert(res.Header.Get("Content-Type") == "multipart/byteranges; boundary="+boundary, "multipart-content-type")
+	vf.Assert(res.Header.Get("Content-Type") == "multipart/byteranges; boundary="+zzboundary, "multipart-content-type")
 	vf.Reach("206-multi")
 }
 
@@ -227,9 +227,9 @@ func VerifC20BodyFree() {
 	r := vf.String("r", k)
 	for i := 0; i < len(r); i++ {
 		c := r[i]
-		vf.Assume(isDigit(c) || c == ',' || c == '-' || c == ' ')
+		vf.Assume(zzisDigit(c) || c == ',' || c == '-' || c == ' ')
 	}
-	runBody(content, "bytes="+r, true)
+	zzrunBody(content, "bytes="+r, true)
 	vf.Reach("done")
 }
 
@@ -237,7 +237,7 @@ func VerifC20BodyFree() {
 func VerifC20BodyNoRange() {
 	n := vf.Choice("bodylen", 4)
 	content := vf.Bytes("content", n)
-	runBody(content, "", false)
+	zzrunBody(content, "", false)
 	vf.Reach("done")
 }
 
@@ -252,7 +252,7 @@ func VerifC20BodyStructured() {
 		k := 1 + vf.Choice(name+".len", d)
 		s := vf.String(name, k)
 		for i := 0; i < len(s); i++ {
-			vf.Assume(isDigit(s[i]))
+			vf.Assume(zzisDigit(s[i]))
 		}
 		return s
 	}
@@ -266,6 +266,6 @@ func VerifC20BodyStructured() {
 			r += num("d")
 		}
 	}
-	runBody(content, r, true)
+	zzrunBody(content, r, true)
 	vf.Reach("done")
 }
